@@ -56,7 +56,8 @@ def c10(tier):
     lcs = json.loads(json.dumps(list(lgrams.CURATED_GREEDY) + list(lgrams.CURATED_MODES) + lgrams.ng_cases()[::7] + lgrams.ng_cases()[-4:]
                                 + lgrams.nullable_cases() + lgrams.random_specs(seed() + 10, 30 if quick else 300)
                                 + lgrams.range_triple_specs(random.Random(seed() + 23), 30 if quick else 400)
-                                + (lgrams.card_nesting_specs() if not quick else lgrams.card_nesting_specs()[(seed() + 1) % 2::2])))
+                                + (lgrams.card_nesting_specs() if not quick else lgrams.card_nesting_specs()[(seed() + 1) % 2::2])
+                                + lgrams.keyword_specs(random.Random(seed() + 25), 36 if quick else 150)))
     lmod = new_subject_module(sc, "xvl", with_simplelexer=True)
     lcase.generate(sc, lox, lmod, lcs)
     lacc = [c for c in lcs if c["gen"]["ok"]]
